@@ -1,7 +1,7 @@
 use std::ops::Neg;
 
 use crate::{Hash, OpCodes, PublicKey, Script, ScriptBit, SigHash, SighashSignature, ToHex};
-use num_bigint::{BigInt, Sign};
+use num_bigint::BigInt;
 
 use super::{
     errors::InterpreterError,
@@ -512,29 +512,35 @@ impl Interpreter {
                 state.stack.push_bool(x >= min && x < max)?;
             }
             OpCodes::OP_NUM2BIN => {
-                let length = state.stack.pop_number()?;
+                // a size -> a re-encoded as a number of exactly `size` bytes
+                let size = state.stack.pop_number()?;
                 let bytes = state.stack.pop_bytes()?;
 
-                if length < 1 || length < bytes.len() as i32 {
+                if size < 0 {
+                    return Err(InterpreterError::InvalidStackOperation("OP_NUM2BIN failed, provide length was out of range"));
+                }
+                let size = size as usize;
+
+                // Start from the minimal encoding of the number
+                let mut minimal: Vec<Vec<u8>> = vec![];
+                minimal.push_bigint(stack_trait::to_bigint(&bytes)?)?;
+                let mut bin_array = minimal.pop_bytes()?;
+
+                if bin_array.len() > size {
                     return Err(InterpreterError::InvalidStackOperation("OP_NUM2BIN failed, provide length was out of range"));
                 }
 
-                // Fill the data in, extend the buffer to the length of the length parameter
-                let (sign, mut bin_array) = stack_trait::to_bigint(&bytes)?.to_bytes_le();
-                bin_array.resize(length as usize, 0);
-                let bin_array_len = bin_array.len();
-
-                let full = bin_array[bin_array_len - 1] & 0x80;
-                if full > 0 {
-                    bin_array.push(0x00);
+                if bin_array.len() < size {
+                    // Move the sign bit to the last byte of the padded result
+                    let mut sign_bit = 0x00;
+                    if let Some(last) = bin_array.last_mut() {
+                        sign_bit = *last & 0x80;
+                        *last &= 0x7f;
+                    }
+                    bin_array.resize(size - 1, 0x00);
+                    bin_array.push(sign_bit);
                 }
 
-                // // Add 0x00 to the end if last byte is positive sign
-                match sign {
-                    Sign::Plus => bin_array[bin_array_len - 1] |= 0x00,
-                    Sign::Minus => bin_array[bin_array_len - 1] |= 0x80,
-                    Sign::NoSign => return Err(InterpreterError::InvalidStackOperation("OP_NUM2BIN failed, invalid sign on bigint.")),
-                };
                 state.stack.push_bytes(bin_array);
             }
             OpCodes::OP_BIN2NUM => {
